@@ -1111,7 +1111,7 @@ Proof.
 Qed.
 
 (** [ordered s]: the parent of every live fidRef has a smaller id (true as long as no rename
-    re-parented a fidRef under a younger one; see C05_disconnect_partial) *)
+    re-parented a fidRef under a younger one; proved for rename-free histories in Refs/Ordered.v; see C05_disconnect) *)
 Definition ordered (s : st) : Prop :=
   forall r p, r < len B s -> live (gref s r) = true -> fr_parent (gref s r) = Some p -> p < r.
 
